@@ -2,6 +2,7 @@ import Pyrealb.Lemmas.ClauseFrRank
 import Pyrealb.Lemmas.ClauseFrNesting
 import Pyrealb.Lemmas.ClauseFrClause
 import Pyrealb.Lemmas.ClauseFrFinite
+import Pyrealb.Lemmas.ClauseFrDepClause
 import Pyrealb.Model.ClauseFrRealize
 /-! # C05 — French clause transformations: negation, auxiliaries, clitics, inversion
 
@@ -988,5 +989,299 @@ def nested4 : Spec :=
     comps := [.dir { id := 1, g := .m, n := .s, pro := true }],
     typ := { neg := some .yes, prog := true, mod := some "poss".toList } }
 example : (phraseToks nested4).map (fun r => vts r.1) = .ok [Tense.p, Tense.pc, Tense.b, Tense.b] := by decide
+
+/-! ## the dependency notation: `root(V, subj(..), comp(..)…).typ(..)` (no interrogative)
+
+`depTyped_inv`: the root verb carries the negation, every other verb is a `post` dependent that is a clean infinitive
+or participle; `depReal_parts`: the flat list handed to `doPronounPlacement` is `verb-free tokens ++ conjugated root ++
+clean tokens`. The contract theorems then apply with the tokens of the `pre` dependents as prefix. -/
+
+/-- passive in the dependency notation: `self.t("s")` for an imperative sets the Dependent's props, the terminal's own
+    `t` still wins — the auxiliary keeps the tense as given -/
+def pasLayerDep (on : Bool) : List (Str × Tense) → List (Str × Tense)
+  | (l, t) :: r => if on then (if l = etre then avoir else etre, t) :: (l, .pp) :: r else (l, t) :: r
+  | [] => []
+
+def expectedChainDep (sp : Spec) : List (Str × Tense) :=
+  auxLayer (sp.typ.mod.bind modalLemma)
+    (auxLayer (if sp.typ.prog then some progAux else none) (pasLayerDep sp.typ.pas [(sp.verb.lemma, sp.t)]))
+
+/-- the two notations declare the same nesting, except for the tense of a passive imperative -/
+theorem expectedChainDep_eq (sp : Spec) (h : sp.typ.pas = false ∨ sp.t ≠ .ip) : expectedChainDep sp = expectedChain sp := by
+  unfold expectedChainDep expectedChain
+  rcases h with h | h
+  · simp [h, pasLayer, pasLayerDep]
+  · simp [h, pasLayer, pasLayerDep]
+
+/-- **C05 nesting, dependency notation**: the root verb followed by the verbs among its dependents, in order, is the
+    declared nesting -/
+def nesting_order_dep : Prop :=
+  ∀ (sp : Spec) (v : VT) (deps : List Dep) (e : Str), sp.typ.int = none →
+    (∀ m, sp.typ.mod = some m → (modalLemma m).isSome = true) →
+    depTyped sp = .ok (v, deps, e) → chainOf (v, deps) = expectedChainDep sp
+
+theorem depElems_head (sp : Spec) : (depElems sp).1.lex.lemma = sp.verb.lemma ∧ (depElems sp).1.t = sp.t := by
+  unfold depElems
+  simp only []
+  split <;> simp [Spec.verbT, mkV]
+
+theorem depStagePas_chain (sp : Spec) (s s' : VT × List Dep) (hd : NV s.2) (h : depStagePas sp s = .ok s') :
+    chainOf s' = pasLayerDep sp.typ.pas [(s.1.lex.lemma, s.1.t)] := by
+  unfold depStagePas at h
+  split at h
+  · rename_i hp
+    have := passivateDep_chain s.1 s'.1 s.2 s'.2 hd h
+    simpa [pasLayerDep, hp] using this
+  · rename_i hp
+    cases h
+    simp [pasLayerDep, hp, chainOf, depChain_nv _ hd]
+
+theorem depStageProg_chain (sp : Spec) (s s' : VT × List Dep) (h : depStageProg sp s = .ok s') :
+    chainOf s' = auxLayer (if sp.typ.prog then some progAux else none) (chainOf s) := by
+  unfold depStageProg at h
+  split at h
+  · rename_i hp
+    obtain ⟨el, hel, h⟩ := bindE_ok _ _ _ h
+    have he := auxLex_lemma _ _ hel
+    simp only [pure, Except.pure, Except.ok.injEq] at h
+    subst h
+    simp [chainOf, auxLayer, hp, VT.setLemma, he, depChain, Dep.vc?, mkV, List.filterMap_cons]
+  · rename_i hp
+    cases h
+    simp [chainOf, auxLayer, hp]
+
+theorem depStageMod_chain (sp : Spec) (s s' : VT × List Dep)
+    (hmod : ∀ m, sp.typ.mod = some m → (modalLemma m).isSome = true) (h : depStageMod sp s = .ok s') :
+    chainOf s' = auxLayer (sp.typ.mod.bind modalLemma) (chainOf s) := by
+  unfold depStageMod at h
+  cases hm : sp.typ.mod with
+  | none =>
+    simp only [hm, pure, Except.pure, Except.ok.injEq] at h
+    subst h
+    simp [chainOf, auxLayer]
+  | some m =>
+    obtain ⟨ml, hml⟩ := Option.isSome_iff_exists.mp (hmod m hm)
+    simp only [hm, hml] at h
+    obtain ⟨lx, hlx, h⟩ := bindE_ok _ _ _ h
+    have hl := auxLex_lemma _ _ hlx
+    simp only [pure, Except.pure, bind, Except.bind, Except.ok.injEq] at h
+    subst h
+    simp [chainOf, auxLayer, hml, VT.setLemma, hl, depChain, Dep.vc?, mkV, List.filterMap_cons]
+
+theorem nesting_order_dep_holds : nesting_order_dep := by
+  intro sp v deps e hint hmod h
+  unfold depTyped at h
+  obtain ⟨s2, h2, h⟩ := bindE_ok _ _ _ h
+  obtain ⟨s3, h3, h⟩ := bindE_ok _ _ _ h
+  obtain ⟨s4, h4, h⟩ := bindE_ok _ _ _ h
+  simp only [hint, pure, Except.pure, Except.ok.injEq, Prod.mk.injEq] at h
+  obtain ⟨rfl, rfl, _⟩ := h
+  have c2 := depStagePas_chain sp _ s2 (depElems_inv sp).2.2 h2
+  have c3 := depStageProg_chain sp s2 s3 h3
+  have c4 := depStageMod_chain sp s3 s4 hmod h4
+  have c5 : chainOf ((depStageNeg sp s4).1, (depStageNeg sp s4).2) = chainOf s4 := by
+    unfold depStageNeg
+    cases sp.typ.neg <;> rfl
+  rw [c5, c4, c3, c2, (depElems_head sp).1, (depElems_head sp).2]
+  rfl
+
+/-- non-vacuity: root « pouvoir », then « être » (progressive), « être » (passive), « donner » -/
+def nestingWitnessDep : Spec :=
+  { subj := some (.np { id := 0, g := .m, n := .s, pro := false }), verb := witnessVerbLex, t := Tense.p,
+    comps := [.dir { id := 1, g := .m, n := .s, pro := false }],
+    typ := { pas := true, prog := true, mod := some "poss".toList } }
+example : (depTyped nestingWitnessDep).map (fun r => chainOf (r.1, r.2.1)) =
+    .ok [("pouvoir".toList, .p), ("être".toList, .b), ("être".toList, .b), ("donner".toList, .pp)] := by decide
+
+/-- **C05 one finite verb, dependency notation, clause level** -/
+def one_finite_verb_clause_dep : Prop :=
+  ∀ (sp : Spec) (toks : List Tok) (e : Str), sp.typ.int = none → depToks sp = .ok (toks, e) →
+    ∀ t ∈ (vts toks).tail, NonFin t
+
+theorem one_finite_verb_clause_dep_holds : one_finite_verb_clause_dep := by
+  intro sp toks e hint h
+  unfold depToks at h
+  obtain ⟨⟨v, deps, endS⟩, hty, h⟩ := bindE_ok _ _ _ h
+  obtain ⟨hds, _⟩ := depTyped_inv sp v deps endS hint hty
+  simp only at h
+  obtain ⟨toks', hreal, h⟩ := bindE_ok _ _ _ h
+  simp only [pure, Except.pure, Except.ok.injEq, Prod.mk.injEq] at h
+  obtain ⟨rfl, _⟩ := h
+  exact depReal_one_finite sp.typ.refl v deps toks' hds.2.2 hreal
+
+/-- the root verb inflects (no morphology error), its form is not empty, and `Q` holds of its first token -/
+def FirstVerbDep (Q : VT → Prop) (sp : Spec) : Prop :=
+  ∀ v deps e rv, depTyped sp = .ok (v, deps, e) →
+    conjugate v sp.typ.refl (depNextPro (deps.filter Dep.isPre ++ deps.filter (fun d => !d.isPre))) = .ok rv →
+    ∃ y f tl, rv.1 = .v y f :: tl ∧ f ≠ [] ∧ Q y
+
+theorem depNextPro_clean (l : List Dep) (q : Tok) (h : depNextPro l = some q) : TokTailOk q :=
+  tokTailOk_of_noV q (depNextPro_noV l q h)
+
+/-- the list the dependency notation hands to `doPronounPlacement`: verb-free tokens, the first token of the root
+    verb (it carries the negation), clean tokens -/
+theorem dep_placement_input (Q : VT → Prop) (sp : Spec) (toks : List Tok) (e : Str) (w : Option Str)
+    (hint : sp.typ.int = none) (hw : sp.typ.neg.map NegV.word2 = w) (hf : FirstVerbDep Q sp)
+    (h : depToks sp = .ok (toks, e)) :
+    ∃ pre y f tl, (∀ t ∈ pre, t.isV = false) ∧ (∀ t ∈ tl, TokTailOk t) ∧ y.neg2 = w ∧ y.lier = false ∧
+      f ≠ [] ∧ Q y ∧ placePronouns sp.typ.refl (pre ++ .v y f :: tl) = .ok toks := by
+  unfold depToks at h
+  obtain ⟨⟨v, deps, endS⟩, hty, h⟩ := bindE_ok _ _ _ h
+  obtain ⟨⟨hvn, hvl, hdi⟩, _⟩ := depTyped_inv sp v deps endS hint hty
+  simp only at h hvn hvl hdi
+  obtain ⟨toks', hreal, h⟩ := bindE_ok _ _ _ h
+  simp only [pure, Except.pure, Except.ok.injEq, Prod.mk.injEq] at h
+  obtain ⟨rfl, _⟩ := h
+  obtain ⟨rv, preT, postT, hrv, hpre, hpost, _, hfin⟩ := depReal_parts sp.typ.refl v deps toks' hdi hreal
+  obtain ⟨y, f, tl0, hrve, hfne, hQ⟩ := hf v deps endS rv hty hrv
+  obtain ⟨hd, tl1, hcv, htl1, hhd⟩ := conj_head v sp.typ.refl _ rv (fun q hq => depNextPro_clean _ q hq) hrv
+  rw [hrve] at hcv
+  simp only [List.cons.injEq] at hcv
+  obtain ⟨rfl, rfl⟩ := hcv
+  have hy : y.neg2 = w ∧ y.lier = false := by
+    rcases hhd with ⟨l, c, hq⟩ | ⟨y', f', hq, h1, h2, _⟩
+    · cases hq
+    · cases hq; exact ⟨by rw [h1, hvn, hw], by rw [h2, hvl]⟩
+  have hroot : rootIsVToks rv.1 = true := by rw [hrve]; cases tl0 <;> rfl
+  simp only [hroot, if_true] at hfin
+  have hfe : (Tok.v y f).form.isEmpty = false := by cases hf' : f <;> simp_all [Tok.form]
+  rw [hrve, removeEmpty_filter _ ⟨.v y f, by simp, hfe⟩] at hfin
+  refine ⟨preT.filter (fun t => !t.form.isEmpty), y, f, (tl0 ++ postT).filter (fun t => !t.form.isEmpty),
+    filter_noV _ _ hpre, ?_, hy.1, hy.2, hfne, hQ, ?_⟩
+  · intro t ht
+    rcases List.mem_append.mp (List.mem_filter.mp ht).1 with ht | ht
+    · exact htl1 t ht
+    · exact hpost t ht
+  · rw [← hfin]
+    simp [List.filter_append, List.filter_cons, hfe]
+
+theorem atFirst_of (pre tl : List Tok) (hpre : ∀ t ∈ pre, t.isV = false) (htl : ∀ t ∈ tl, TokTailOk t) :
+    AtFirstVerb pre tl :=
+  ⟨hpre, (by
+    intro t ht
+    rcases List.mem_append.mp ht with ht | ht
+    · have := hpre t ht
+      cases t <;> simp_all [Tok.isV]
+    · have := htl t ht
+      cases t <;> simp_all [TokTailOk])⟩
+
+def FirstVerbDepFinite (sp : Spec) : Prop := FirstVerbDep (fun y => y.t ≠ .b) sp
+
+/-- **C05 `ne`, clause level, dependency notation** -/
+def ne_position_clause_dep : Prop :=
+  ∀ (sp : Spec) (nv : NegV) (toks : List Tok) (e : Str),
+    sp.typ.int = none → sp.typ.neg = some nv → FirstVerbDepFinite sp → depToks sp = .ok (toks, e) →
+    ∃ a cs x f b, toks = a ++ .adv ne :: cs ++ .v x f :: b ∧ (∀ c ∈ cs, IsCliticFn c) ∧ (∀ t ∈ a, t.isV = false) ∧
+      x.neg2 = none
+
+theorem ne_position_clause_dep_holds : ne_position_clause_dep := by
+  intro sp nv toks e hint hneg hf h
+  obtain ⟨pre, y, f, tl, hpre, htl, hyn, _, _, hyt, hpl⟩ :=
+    dep_placement_input _ sp toks e (some nv.word2) hint (by simp [hneg]) hf h
+  obtain ⟨cs, after, hout, hcs⟩ := ne_position_holds sp.typ.refl pre tl y f nv.word2 toks (atFirst_of pre tl hpre htl)
+    hyn hyt hpl
+  exact ⟨pre, cs, { y with neg2 := none }, f, after, hout, hcs, hpre, rfl⟩
+
+/-- **C05 second negative word, clause level, dependency notation** -/
+def neg2_position_clause_dep : Prop :=
+  ∀ (sp : Spec) (nv : NegV) (toks : List Tok) (e : Str),
+    sp.typ.int = none → sp.typ.neg = some nv → FirstVerbDepFinite sp → depToks sp = .ok (toks, e) →
+    ∃ a x f b, toks = a ++ .v x f :: .q nv.word2 :: b ∧ (∀ t ∈ a, t.isV = false)
+
+theorem neg2_position_clause_dep_holds : neg2_position_clause_dep := by
+  intro sp nv toks e hint hneg hf h
+  obtain ⟨pre, y, f, tl, hpre, htl, hyn, hyl, _, hyt, hpl⟩ :=
+    dep_placement_input _ sp toks e (some nv.word2) hint (by simp [hneg]) hf h
+  obtain ⟨before, mid, after, hout, hmid, hbefore⟩ := neg2_position_finite_holds sp.typ.refl pre tl y f nv.word2 toks
+    (atFirst_of pre tl hpre htl) hyn hyt hpl
+  have hmid0 : mid = [] := by
+    rw [hyl] at hmid
+    cases mid <;> simp_all
+  subst hmid0
+  exact ⟨before, { y with neg2 := none }, f, after, by simpa using hout, hbefore⟩
+
+def FirstVerbDepMain (sp : Spec) : Prop :=
+  FirstVerbDep (fun y => y.isMod = false ∧ y.isProg = false ∧ tableFor y ≠ .ipPos) sp
+
+/-- **C05 clitic order, clause level, dependency notation** -/
+def clitic_order_clause_dep : Prop :=
+  ∀ (sp : Spec) (toks : List Tok) (e : Str),
+    sp.typ.int = none → FirstVerbDepMain sp → depToks sp = .ok (toks, e) →
+    ∃ a run x f b tb, toks = a ++ run ++ .v x f :: b ∧ (∀ t ∈ a ++ run, t.isV = false) ∧ SortedBy (rankOf tb) run
+
+theorem clitic_order_clause_dep_holds : clitic_order_clause_dep := by
+  intro sp toks e hint hm h
+  obtain ⟨pre, y, f, tl, hpre, htl, _, _, _, ⟨hym, hyp, hytb⟩, hpl⟩ :=
+    dep_placement_input _ sp toks e _ hint rfl hm h
+  have hmain : AtMainVerb pre tl :=
+    ⟨(by
+      intro t ht
+      have := hpre t ht
+      cases t <;> simp_all [Tok.isV]), (by
+      intro t ht
+      have := htl t ht
+      cases t <;> simp_all [TokTailOk])⟩
+  have hsorted := clitic_order_holds sp.typ.refl pre tl y f toks hmain hym hyp hytb hpl
+  obtain ⟨isR, hr, hrun⟩ := runBefore_place sp.typ.refl pre tl y f toks hmain hym hyp hytb hpl
+  rw [place_first_verb sp.typ.refl pre tl y f (atMain_onlyAux hmain) hyp hym (atMain_noAuxNeg hmain y f hym hyp)] at hpl
+  simp only [hr, Except.bind, Except.ok.injEq] at hpl
+  have hprosV : ∀ t ∈ prosOf y isR (lastProg none pre) (collect tl).1, t.isV = false := by
+    intro t ht
+    unfold prosOf at ht
+    rw [sortPros_mem] at ht
+    exact prosRaw_noV y isR _ _ (collect_fst_clitic tl) t ht
+  rw [hrun] at hsorted
+  refine ⟨pre, prosOf y isR (lastProg none pre) (collect tl).1, (if y.t = Tense.b then y else { y with neg2 := none }), f,
+    (match y.neg2 with
+      | some w => if y.t = Tense.b then (collect tl).2 else pyInsert (if y.lier = true then 1 else 0) (Tok.q w) (collect tl).2
+      | none => (collect tl).2), tableFor y, ?_, ?_, hsorted⟩
+  · rw [← hpl]
+    simp [placedAt, hytb]
+    cases y.neg2 <;> rfl
+  · intro t ht
+    rcases List.mem_append.mp ht with ht | ht
+    · exact hpre t ht
+    · exact hprosV t ht
+
+/-- executable form of `FirstVerbDep` for a decidable `q` -/
+def firstVerbDepB (q : VT → Bool) (sp : Spec) : Bool :=
+  match depTyped sp with
+  | .ok (v, deps, _) =>
+    (match conjugate v sp.typ.refl (depNextPro (deps.filter Dep.isPre ++ deps.filter (fun d => !d.isPre))) with
+     | .ok (.v y f :: _, _) => !f.isEmpty && q y
+     | .ok _ => false
+     | .error _ => true)
+  | .error _ => true
+
+theorem firstVerbDep_of_check (q : VT → Bool) (sp : Spec) (h : firstVerbDepB q sp = true) :
+    FirstVerbDep (fun y => q y = true) sp := by
+  intro v deps e rv h1 h2
+  unfold firstVerbDepB at h
+  simp only [h1, h2] at h
+  obtain ⟨l, b⟩ := rv
+  cases l with
+  | nil => simp at h
+  | cons t tl =>
+    cases t <;> simp at h
+    rename_i y f
+    exact ⟨y, f, tl, rfl, by cases f <;> simp_all, h.2⟩
+
+/-- non-vacuity, dependency notation: « il ne le lui donne pas », « il ne le lui y en donne pas » -/
+example : FirstVerbDepFinite ilNeLeLuiDonnePas := by
+  have := firstVerbDep_of_check (fun y => y.t != .b) _ (by decide : firstVerbDepB _ ilNeLeLuiDonnePas = true)
+  intro v deps e rv h1 h2
+  obtain ⟨y, f, tl, a, b, c⟩ := this v deps e rv h1 h2
+  exact ⟨y, f, tl, a, b, by simpa using c⟩
+example : (depToks ilNeLeLuiDonnePas).map (fun r => r.1.map Tok.form) =
+    .ok ["il".toList, "ne".toList, "le".toList, "lui".toList, "donne".toList, "pas".toList] := by decide
+example : FirstVerbDepMain reversed4 := by
+  have := firstVerbDep_of_check (fun y => !y.isMod && !y.isProg && tableFor y != .ipPos) _
+    (by decide : firstVerbDepB _ reversed4 = true)
+  intro v deps e rv h1 h2
+  obtain ⟨y, f, tl, a, b, c⟩ := this v deps e rv h1 h2
+  have c' : (y.isMod = false ∧ y.isProg = false) ∧ ¬tableFor y = CTable.ipPos := by simpa using c
+  exact ⟨y, f, tl, a, b, c'.1.1, c'.1.2, c'.2⟩
+example : (depToks reversed4).map (fun r => r.1.map Tok.form) =
+    .ok ["il".toList, "ne".toList, "le".toList, "lui".toList, "y".toList, "en".toList, "donne".toList, "pas".toList] := by decide
 
 end Pyrealb.C05
